@@ -11,6 +11,7 @@ mod netcase;
 mod nets;
 mod random;
 mod tensors;
+mod terms;
 mod training;
 mod util;
 
@@ -83,6 +84,7 @@ fn dispatch(group: &str, case: &Value, rep: &mut util::Report, rng: &mut util::R
         "net" => netcase::replay_net(case, rep),
         "flow" => netcase::replay_flow(case, rep),
         "random" => random::replay_random(case, rep),
+        "optimizer" => terms::replay_optimizer(case, rep, rng),
         _ => panic!("unknown group {}", group),
     }
 }
